@@ -316,7 +316,7 @@ func runC12(cfg *vc.Config, rep *vc.Report) {
 	type result struct {
 		o realOutcome
 	}
-	cfg.Cases(200000, 3000000, func(i int, r *vc.Rand) {
+	cfg.Cases(200000, 20000000, func(i int, r *vc.Rand) {
 		cs, w := genC12(r, i)
 		if i%64 == 0 {
 			rep.Current(cs) // cheap: full logging only periodically; a fatal error is attributed by index range
